@@ -161,6 +161,9 @@ JudgePred(r) ==
    IN  C((r.equiv = 1) = (G = Span(r.b)), "equivalent")
        \cup C(ncols = P2(r.n) /\ {cols[i] : i \in 1..ncols} = G, "expand")
        \cup C(Len(r.ent) = r.n /\ \A q \in 0..(r.n - 1) : (r.ent[q + 1] = 1) = ~(\E p \in G : Supp(p) = P2(q)), "entangled")
+       (* asked again on the same objects after the caller overwrote the arrays it had been given; the other way round for equivalence *)
+       \cup C(r.expX2 = r.expX /\ r.expZ2 = r.expZ /\ r.ent2 = r.ent, "repeatable")
+       \cup C(r.equiv2 = r.equiv, "symmetric")
 
 (***************************************************************************)
 (* Local-Clifford layer search (C16).  P: m sign-free Paulis on n qubits,  *)
